@@ -453,6 +453,36 @@ func (a *cbpAnchors) more() *cbpMore {
 			}
 		})
 	}
+	// the shard map may sit behind a small wrapper type (its own Load / LoadOrStore methods around a sync.Map): the
+	// request path is then the caller of the wrapper's method — the function of a type that also holds the admission mutex
+	for hop := 0; hop < 2 && m.multiConsume != nil; hop++ {
+		hasLock := false
+		if m.multiConsume.Signature.Recv() != nil {
+			if st := core.FlatStruct(m.multiConsume.Signature.Recv().Type()); st != nil {
+				for i := 0; i < st.NumFields(); i++ {
+					if core.TypePkgPath(st.Field(i).Type()) == "sync" && strings.HasSuffix(core.TypeName(st.Field(i).Type()), "Mutex") {
+						hasLock = true
+					}
+				}
+			}
+		}
+		if hasLock {
+			break
+		}
+		var caller *ssa.Function
+		for _, fn := range a.p.FuncsIn(func(pp string) bool { return pp == core.CBPPath }) {
+			fn := fn
+			core.EachCall(fn, func(ci ssa.CallInstruction) {
+				if ci.Common().StaticCallee() == m.multiConsume && fn != m.multiConsume {
+					caller = fn
+				}
+			})
+		}
+		if caller == nil {
+			break
+		}
+		m.multiConsume = caller
+	}
 	need := map[string]bool{"shard loop": m.loopFn != nil, "item handler (calls batch.add)": m.processFn != nil, "enqueue function": m.enqueueFn != nil,
 		"wait function": m.waitFn != nil, "multi-shard consume (LoadOrStore)": m.multiConsume != nil, "shutdown channel (close)": m.shutdownChan != nil,
 		"shard constructor": m.newShardFn != nil, "processor constructor": m.ctorFn != nil}
